@@ -22,21 +22,21 @@
     outside int16 (e.g. `-127>127:1`): modelled as what g++/x86-64 emits (convert to int32,
     keep the low 16 bits) = `i16`; flagged by the spec (the node cannot be represented).
   No longer undefined (repository fixes followed by this model):
-  * `add_instrument` on an empty tag (`@1` with no type) is an InputError (7061cba);
-  * `add_ins_fm_2op` only accepts a base whose `ins_type` is `INS_FM` (85bdeee) — the base entry
+  * `add_instrument` on an empty tag (`@1` with no type) is an InputError (696884e);
+  * `add_ins_fm_2op` only accepts a base whose `ins_type` is `INS_FM` (45b84a6) — the base entry
     is then always a 30-byte FM image (`Proofs/MdsBase: FmInv`, theorem `C11_fm_base_inv`), so the former out-of-size
     indexing `fm_data[27]`/`[29]` of a PSG envelope no longer exists (`fm2opBytes` is still
     written with `mapIdx`, which on a 30-byte image is exactly the three assignments);
-  * the FM transpose byte is computed in `unsigned long` (a2025de): `u8 ((v + 24) * 2)` for every
+  * the FM transpose byte is computed in `unsigned long` (4b9aa87): `u8 ((v + 24) * 2)` for every
     `long` value `v`, `strtol` saturation included;
-  * `add_pitch_vibrato` doubles the rate in `long long` (584f89a); the product is rendered with
+  * `add_pitch_vibrato` doubles the rate in `long long` (a95256a); the product is rendered with
     `%lld` and read back by `add_pitch_node` into an `int` (`i32`, implementation-defined
     conversion, modular on g++);
-  * `add_pitch_node` throws InputError as soon as `env_data` holds more than 256 nodes (c469126):
+  * `add_pitch_node` throws InputError as soon as `env_data` holds more than 256 nodes (54bd60e):
     `PErr.tooLong`; the check sits after the `push_back`s and after the `invalid_argument` test
     of the same iteration, and is modelled in that order;
   * a loop position above 255 (256 nodes, then the mark) is an InputError in both end commands
-    (3ecca73): `addPitch` tests it before `pitchFinish` / `pitchFinishExt`, which therefore only
+    (1772c47): `addPitch` tests it before `pitchFinish` / `pitchFinishExt`, which therefore only
     ever see `lp ≤ 255` — the hypothesis `lp < 256` of `C11_pitch_decode_compact/_extended`.
   Narrowings of `strtol` results: `int length` / `int vibrato_rate` = `i32`; `unsigned default_len`
   = `% 2^32`; `uint8_t` = `u8`.  `strtol` saturates at `LONG_MIN`/`LONG_MAX` (`clampLong`).
